@@ -418,22 +418,29 @@ func (p *Proxy) handleConnectRequest(ctx *Context, req *http.Request, session *S
 		log.Errorf("martian: got error while flushing response back to client: %v", err)
 	}
 
-	cbw := bufio.NewWriter(cconn)
-	cbr := bufio.NewReader(cconn)
-	defer cbw.Flush()
-
-	copySync := func(w io.Writer, r io.Reader, donec chan<- bool) {
+	copySync := func(w net.Conn, r io.Reader, donec chan<- bool) {
 		if _, err := io.Copy(w, r); err != nil && err != io.EOF {
 			log.Errorf("martian: failed to copy CONNECT tunnel: %v", err)
+		}
+
+		// The reader is finished: pass the end-of-stream on to the other end,
+		// keeping the opposite direction open when the connection allows it.
+		if cw, ok := w.(interface{ CloseWrite() error }); ok {
+			cw.CloseWrite()
+		} else {
+			w.Close()
 		}
 
 		log.Debugf("martian: CONNECT tunnel finished copying")
 		donec <- true
 	}
 
+	// Copy between the connections without intermediate write buffers, so no
+	// byte is held back. brw.Reader may already hold bytes that arrived together
+	// with the CONNECT request.
 	donec := make(chan bool, 2)
-	go copySync(cbw, brw, donec)
-	go copySync(brw, cbr, donec)
+	go copySync(cconn, brw.Reader, donec)
+	go copySync(conn, cconn, donec)
 
 	log.Debugf("martian: established CONNECT tunnel, proxying traffic")
 	<-donec
@@ -598,6 +605,15 @@ type peekedConn struct {
 // be read again.
 func (c *peekedConn) Read(buf []byte) (int, error) { return c.r.Read(buf) }
 
+// CloseWrite shuts down the writing side of the embedded net.Conn if it
+// supports that, and closes it otherwise.
+func (c *peekedConn) CloseWrite() error {
+	if cw, ok := c.Conn.(interface{ CloseWrite() error }); ok {
+		return cw.CloseWrite()
+	}
+	return c.Conn.Close()
+}
+
 func (p *Proxy) roundTrip(ctx *Context, req *http.Request) (*http.Response, error) {
 	if ctx.SkippingRoundTrip() {
 		log.Debugf("martian: skipping round trip")
@@ -625,8 +641,13 @@ func (p *Proxy) connect(req *http.Request) (*http.Response, net.Conn, error) {
 		if err != nil {
 			return nil, nil, err
 		}
+		if res.StatusCode/100 == 2 {
+			// A successful response to CONNECT has no body: whatever follows the
+			// header belongs to the tunnel, including bytes pbr has already buffered.
+			res.Body = http.NoBody
+		}
 
-		return res, conn, nil
+		return res, &peekedConn{conn, pbr}, nil
 	}
 
 	log.Debugf("martian: CONNECT to host directly: %s", req.URL.Host)
